@@ -43,7 +43,7 @@ def run(ctx):
     mx = matrix(schema)
     if quick:
         mx = [c for k, c in enumerate(mx) if k % 2 == 0]
-    hist.run_histories(ctx, ["TMix", "TOpt", "TWkt", "TOne", "TImpl"], 400 if quick else 10000, 8, "presence", withref=True, extra=mx)
+    hist.run_histories(ctx, ["TMix", "TOpt", "TWkt", "TOne", "TOneP", "TScal", "TImpl"], 400 if quick else 10000, 8, "presence", withref=True, extra=mx)
 
 
 def redrive(ev):
